@@ -22,7 +22,7 @@ func H_hierarchy() {
 	if symx.Param("implbits", 64) == 16 {
 		impl <<= 2
 	}
-	over := symx.Choose("override", 4)    // bit (c-1): class c overrides m()
+	over := symx.Choose("override", 4) // bit (c-1): class c overrides m()
 	parent := []int{-1, p1, p2}
 	var overrides func(c int) bool
 	implements := func(c, i int) bool { return impl>>(uint(c*2+i))&1 == 1 }
@@ -173,5 +173,76 @@ func H_hierarchy() {
 		nextB(false, "like: method missing (L2)")
 	}
 	symx.Assert(k == len(sx.Log), "no extra observations")
+	symx.Reach("end")
+}
+
+// H_iface_chain: interface chains up to three deep (I2 extends I1 extends I0 and every other
+// extends shape over three interfaces); one class implementing one of them; instanceof, typed
+// parameter and catch must agree with reachability for every target interface.
+func H_iface_chain() {
+	e1 := symx.Choose("i1_extends", 2)       // 0 none, 1 I0
+	e2 := symx.Choose("i2_extends", 4)       // 0 none, 1 I0, 2 I1, 3 I0 and I1
+	impl := symx.Choose("implements", 3)     // the class implements I<impl>
+	viaParent := symx.Choose("inherited", 2) // implemented by the class itself or by its parent
+	src := "interface I0 { }\n"
+	if e1 == 1 {
+		src += "interface I1 extends I0 { }\n"
+	} else {
+		src += "interface I1 { }\n"
+	}
+	src += "interface I2" + []string{"", " extends I0", " extends I1", " extends I0, I1"}[e2] + " { }\n"
+	if viaParent == 1 {
+		src += "class P extends Exception implements I" + itoa(impl) + " { }\nclass C extends P { }\n"
+	} else {
+		src += "class C extends Exception implements I" + itoa(impl) + " { }\n"
+	}
+	for t := 0; t < 3; t++ {
+		src += "function accept" + itoa(t) + "(I" + itoa(t) + " $v) { return 1; }\n"
+	}
+	src += "$o = new C(\"x\");\n"
+	for t := 0; t < 3; t++ {
+		src += "emit($o instanceof I" + itoa(t) + ");\n"
+		src += "try { accept" + itoa(t) + "($o); emit(true); } catch (Throwable $e) { emit(false); }\n"
+		src += "try { throw $o; } catch (I" + itoa(t) + " $e) { emit(true); } catch (Throwable $e) { emit(false); }\n"
+	}
+	s := sx.Compile(src)
+	symx.Assert(s.Err == nil, "interface declarations parse")
+	if s.Err != nil {
+		return
+	}
+	_, ctl := s.Run()
+	symx.Assert(ctl == nil && len(sx.Log) == 9, "script runs")
+	if ctl != nil || len(sx.Log) != 9 {
+		return
+	}
+	// reachability over the extends edges
+	ext := [3][3]bool{}
+	if e1 == 1 {
+		ext[1][0] = true
+	}
+	if e2 == 1 || e2 == 3 {
+		ext[2][0] = true
+	}
+	if e2 == 2 || e2 == 3 {
+		ext[2][1] = true
+	}
+	var reach func(a, b int) bool
+	reach = func(a, b int) bool {
+		if a == b {
+			return true
+		}
+		for m := 0; m < 3; m++ {
+			if ext[a][m] && reach(m, b) {
+				return true
+			}
+		}
+		return false
+	}
+	for t := 0; t < 3; t++ {
+		w := reach(impl, t)
+		symx.Assert(sx.Log[3*t].Kind == 'b' && sx.Log[3*t].B == w, "instanceof follows the interface extends chain")
+		symx.Assert(sx.Log[3*t+1].Kind == 'b' && sx.Log[3*t+1].B == w, "typed parameter follows the interface extends chain")
+		symx.Assert(sx.Log[3*t+2].Kind == 'b' && sx.Log[3*t+2].B == w, "catch (T) follows the interface extends chain")
+	}
 	symx.Reach("end")
 }
